@@ -446,7 +446,7 @@ class Interp:
         r = self._arith0(op, x, y, ty, want_overflow)
         if op in ("Add", "Sub", "Shl", "Shr") and isinstance(x, AI) and isinstance(y, AI):
             r0 = r[0] if want_overflow else r
-            if isinstance(r0, AI) and r0.const() is None and not self.exact(r0) and (want_overflow is False or r[1].const() == 0):
+            if isinstance(r0, AI) and r0.const() is None and not self.exact(r0) and r0.tag is None and (want_overflow is False or r[1].const() == 0):
                 f = self.fld_op(op, x, y, ty)
                 if f is not None and f.lo >= r0.lo and f.hi <= r0.hi:
                     return (f, r[1]) if want_overflow else f
@@ -454,7 +454,7 @@ class Interp:
 
     def bitop(self, op, x, y, ty):
         r = self._bitop0(op, x, y, ty)
-        if op in ("BitAnd", "BitOr") and isinstance(r, AI) and r.const() is None and not self.exact(r):
+        if op in ("BitAnd", "BitOr") and isinstance(r, AI) and r.const() is None and not self.exact(r) and r.tag is None:
             f = self.fld_op(op, x, y, ty)
             if f is not None and f.lo >= r.lo and f.hi <= r.hi:
                 return f
@@ -867,6 +867,13 @@ class Interp:
             r = fr.locals.get(local)
             if isinstance(r, Ref):
                 return self.write_proj(r.frame, r.local, list(r.proj) + list(proj[1:]), val)
+            if isinstance(r, Slice) and len(proj) == 1 and isinstance(val, Agg) and val.kind == "array" and len(val.fields) == r.end - r.start:
+                # `*chunk = [..]` through a reference to a fixed-size piece of a slice: element-wise into the storage
+                for i, v in enumerate(val.fields):
+                    self.write_proj(r.ref.frame, r.ref.local, list(r.ref.proj) + [{"const_index": r.start + i}], v)
+                return
+            if isinstance(r, Slice) and len(proj) == 2 and isinstance(proj[1], dict) and "const_index" in proj[1] and 0 <= proj[1]["const_index"] < r.end - r.start:
+                return self.write_proj(r.ref.frame, r.ref.local, list(r.ref.proj) + [{"const_index": r.start + proj[1]["const_index"]}], val)
             raise Unsupported("write through %r" % (r,))
         base = fr.locals.get(local)
         cur = base
@@ -1196,6 +1203,7 @@ class Interp:
             rb = self.F.by_path[res][0]
             rf = (f.get("resolved") or {}).get("fn_args")
             env = dict(zip(rb.get("generics") or [], [self.subst(fr, a) for a in rf])) if rf is not None and len(rf) == len(rb.get("generics") or []) else dict(fr.env)
+            self.carry_assoc(fr.env, env)
             return self.call_body(rb, args, env, depth + 1)
         return self.call_named(name, fargs, args, fr, t, depth, f.get("fn_crate"))
 
@@ -1272,8 +1280,20 @@ class Interp:
             body = self.find_body(name, fargs)
             if body is not None:
                 env = dict(zip(body["generics"], fargs))
+                self.carry_assoc(fr.env, env)
                 return self.call_body(body, args, env, depth + 1)
         raise Unsupported("call of %s" % name)
+
+    @staticmethod
+    def carry_assoc(outer, env):
+        """associated types bound in the caller's environment (`<WR as WordRead>::Word` = u8) stay bound in the callee, under the
+        callee's names for the same type parameters"""
+        for key, val in outer.items():
+            if not (isinstance(key, str) and key.startswith("<")):
+                continue
+            for g, v in list(env.items()):
+                if isinstance(v, str) and isinstance(g, str) and not g.startswith("<") and ("<%s as " % v) in key:
+                    env.setdefault(key.replace("<%s as " % v, "<%s as " % g), val)
 
     def as_iter(self, v):
         """the PyIter denoted by an iterator / iterable value, or None"""
@@ -1345,6 +1365,26 @@ class Interp:
                 if m > end - start:
                     raise Panic("split_at beyond the end")
                 return Agg("tuple", None, None, None, [Slice(ref, start, start + m), Slice(ref, start + m, end)])
+            m_ = re.match(r"split_(first|last)_chunk(_mut)?$", last)
+            if m_ or last in ("as_chunks", "as_chunks_mut", "first_chunk", "last_chunk"):
+                n = fargs[-1] if fargs else None
+                if not isinstance(n, int) or isinstance(n, bool) or n <= 0:
+                    raise Unsupported("chunk length of %s" % name)
+                if last in ("as_chunks", "as_chunks_mut"):
+                    q = (end - start) // n
+                    groups = PyIter("values", [[Slice(ref, start + i * n, start + (i + 1) * n) for i in range(q)], 0])
+                    return Agg("tuple", None, None, None, [groups, Slice(ref, start + q * n, end)])
+                if end - start < n:
+                    return mk_variant("std::option::Option", "None", [])
+                if last == "first_chunk":
+                    return mk_variant("std::option::Option", "Some", [Slice(ref, start, start + n)])
+                if last == "last_chunk":
+                    return mk_variant("std::option::Option", "Some", [Slice(ref, end - n, end)])
+                if m_.group(1) == "first":
+                    pair = [Slice(ref, start, start + n), Slice(ref, start + n, end)]
+                else:
+                    pair = [Slice(ref, start, end - n), Slice(ref, end - n, end)]
+                return mk_variant("std::option::Option", "Some", [Agg("tuple", None, None, None, pair)])
             if last == "copy_from_slice":
                 src = self.slice_of(args[1])
                 if src is None:
@@ -1437,6 +1477,11 @@ class Interp:
                 arr = args[0]
                 if isinstance(arr, Ref):
                     arr = self.project(arr.frame, arr.frame.locals.get(arr.local), arr.proj)
+                if isinstance(arr, Slice) and arr.end - arr.start == nb:
+                    # a fixed-size piece of a slice read as an array (`*chunk`)
+                    whole = self.project(arr.ref.frame, arr.ref.frame.locals.get(arr.ref.local), arr.ref.proj)
+                    if isinstance(whole, Agg) and whole.kind == "array":
+                        arr = Agg("array", None, None, None, list(whole.fields[arr.start:arr.end]))
                 if not (isinstance(arr, Agg) and arr.kind == "array" and len(arr.fields) == nb and all(isinstance(b, AI) and b.const() is not None for b in arr.fields)):
                     raise Unsupported("%s of %r" % (name, arr))
                 bs = [b.const() for b in arr.fields]
